@@ -353,8 +353,19 @@ class Explorer(object):
                 out = ('idx', out, iv)
         return out
 
+    FRESH = ('calloc', 'malloc', 'realloc', 'reallocarray', 'strdup', 'strndup')
+
+    def _vkey(self, addr):
+        """version key of an address: field name + whether the object is a fresh allocation of
+        this path (which cannot alias anything reachable from parameters or globals)"""
+        f = field_of(addr)
+        r = root_of(addr)
+        if r[0] == 'call' and r[1] in self.FRESH:
+            return (f, r[2])
+        return f
+
     def _version(self, st, addr):
-        key = field_of(addr)
+        key = self._vkey(addr)
         return (st.ver.get(key, 0), st.wild)
 
     def _bump(self, st, key):
@@ -527,10 +538,11 @@ class Explorer(object):
                     addr = self.ev(ins.ops[1], st)
                     st.mem[addr] = val
                     key = field_of(addr)
-                    self._bump(st, key)
-                    # a store through an unknown pointer kills same-named fields
+                    vkey = self._vkey(addr)
+                    self._bump(st, vkey)
+                    # a store through a pointer kills same-named fields it may alias
                     for a in list(st.mem):
-                        if a != addr and field_of(a) == key and a[0] != 'alloca':
+                        if a != addr and a[0] != 'alloca' and self._vkey(a) == vkey:
                             del st.mem[a]
                     st.events.append(Event('store', ins, addr=addr, val=val, in_loop=inloop, field=key,
                                            depth=depth, fn=fn.name))
